@@ -8,7 +8,7 @@ mod seg;
 
 use i_tree::key::list::KeyExpList;
 use i_tree::key::tree::KeyExpTree;
-use inst::{OKey, XKey, PV};
+use inst::{Cnt, OKey, XKey, PV};
 use i_tree::map::list::MapList;
 use i_tree::map::tree::MapTree;
 use i_tree::set::list::SetList;
@@ -244,6 +244,10 @@ fn dispatch(a: &Args, tr: &mut out::Trace) {
         "settree-i32" => ord_main::<SetTree<OKey, PV<i32>>>(a, tr),
         "settree-str" => ord_main::<SetTree<OKey, PV<String>>>(a, tr),
         "settree-plain" => ord_main::<SetTree<i32, i32>>(a, tr),
+        "maptree-cnt" => ord_main::<MapTree<OKey, Cnt>>(a, tr),
+        "settree-cnt" => ord_main::<SetTree<OKey, PV<Cnt>>>(a, tr),
+        "maplist-cnt" => ord_main::<MapList<OKey, Cnt>>(a, tr),
+        "setlist-cnt" => ord_main::<SetList<PV<Cnt>>>(a, tr),
         "setlist-i32" => ord_main::<SetList<PV<i32>>>(a, tr),
         "setlist-str" => ord_main::<SetList<PV<String>>>(a, tr),
         "seg-i32" if a.driver == "matrix" => seg::run_matrix(tr, a.num("from", 0), a.num("to", 528)),
